@@ -390,6 +390,8 @@ def wire(f, S):
                                       wire(f.functional, S))
     if t is F.InfimalConvolution:
         return 'infconv|{}|{}'.format(wire(f.left, S), wire(f.right, S))
+    if t is F.FunctionalDefaultConvexConjugate:
+        return 'dconj|' + wire(f.convex_conj, S)
     if t is sol.MoreauEnvelope:
         inner = wire(f.functional, S)
         if inner not in ('l1', 'l2sq'):
